@@ -327,6 +327,8 @@ def coarse(ending):
 def run_doctest_case(spec, tmpdir, name):
     """returns dict(model_line, observed, before, after, loop, module_imported)"""
     from xdoctest import core
+    if getattr(sys.stdout, 'closed', False):
+        sys.stdout = sys.__stdout__      # a stream an earlier case left closed must not take the harness down
     src, infos = render_module(spec)
     modpath = os.path.join(tmpdir, name + '.py')
     with open(modpath, 'w') as f:
@@ -360,6 +362,8 @@ def run_doctest_case(spec, tmpdir, name):
         # the SAME DocTest object run again while ANOTHER stream is sys.stdout (a redirection that was not there during the
         # first run: capsys, redirect_stdout, a retry wrapper): after each run sys.stdout must be the object it was before THAT run
         for i in range(int(spec.get('reruns', 0))):
+            if sys.stdout is not snap.stdout:
+                break       # the FIRST run already left another stream behind (reported by the state comparison): nothing to add
             mine = io.StringIO()
             held, sys.stdout = sys.stdout, mine
             path_before = list(sys.path)
